@@ -1,0 +1,27 @@
+//go:build verif
+
+package result
+
+import (
+	"github.com/ipfs/go-log/v2"
+	"github.com/keep-network/keep-core/pkg/protocol/group"
+	"github.com/keep-network/keep-core/pkg/protocol/state"
+)
+
+// Verification hook (build tag verif): re-exports existing identifiers only.
+
+// VerifC14InitialState builds the first state of the result publication state
+// chain as Publish does (no channel/chain attached: only the chain structure
+// Next/DelayBlocks/ActiveBlocks is walked).
+func VerifC14InitialState(
+	logger log.StandardLogger,
+	memberIndex group.MemberIndex,
+	dkgGroup *group.Group,
+	startBlockHeight uint64,
+) state.SyncState {
+	return &resultSigningState{
+		member:                  NewSigningMember(logger, memberIndex, dkgGroup, nil, "verif"),
+		signatureMessages:       make([]*DKGResultHashSignatureMessage, 0),
+		signingStartBlockHeight: startBlockHeight,
+	}
+}
